@@ -94,7 +94,10 @@ where
         // capacity probe: exactly cap - baseline fresh nodes can be created
         let created = mr.with_manager_shared(|m| {
             let mut edges = vec![];
-            let t = K::F::t(m);
+            let mut t = K::F::t(m);
+            while let Some(c) = t.cofactor_false() {
+                t = c;
+            }
             let f = K::F::f(m);
             let mut prev: Vec<_> = vec![m.clone_edge(t.as_edge(m)), m.clone_edge(f.as_edge(m))];
             let mut count = 0usize;
